@@ -47,6 +47,11 @@ impl SignalList {
 /// the monitor: which caught signal was handed out last and has not had its action run yet, how many were handed
 /// out / run, and whether anything went wrong
 pub struct Mon {
+    /// a trap round has been made since the last command was executed (and nothing else in between)
+    pub round_done: bool,
+    /// some command was executed without a trap round right before it
+    pub unannounced_command: bool,
+    pub commands: nat,
     pub owed: Option<(signal::Number, int)>,
     pub taken_commands: nat,
     pub runs: nat,
@@ -82,7 +87,7 @@ pub fn run_trap<S>(env: &mut Env<S>, cond: Condition, code: Rc<Code>, origin: Lo
 { unimplemented!() }
 impl<S: Runtime> Env<S> {
     #[verifier::external_body]
-    pub fn poll_signals(&mut self) -> (r: Option<Rc<SignalList>>) ensures final(self).mon@ == old(self).mon@ { unimplemented!() }
+    pub fn poll_signals(&mut self) -> (r: Option<Rc<SignalList>>) ensures final(self).mon@ == (Mon { round_done: true, ..old(self).mon@ }) { unimplemented!() }
     #[verifier::external_body]
     pub fn sigint_has_default_action(&self) -> (r: bool) { unimplemented!() }
 }
@@ -93,3 +98,18 @@ pub fn in_trap<S>(env: &Env<S>) -> (r: bool) ensures r == env.mon@.in_trap { uni
 pub assume_specification<T, F: FnOnce(T) -> bool>[ Option::<T>::is_some_and ](o: Option<T>, f: F) -> (b: bool)
     requires o matches Some(v) ==> f.requires((v,)),
     ensures o is None ==> !b, o matches Some(v) ==> f.ensures((v,), b);
+
+/// a complete command (yash-syntax List), executed by the interpreter: opaque
+pub struct List { pub verif_id: int }
+pub trait Command<S> { fn execute(&self, env: &mut Env<S>) -> Result; }
+impl<S> Command<S> for List {
+    #[verifier::external_body]
+    fn execute(&self, env: &mut Env<S>) -> (r: Result)
+        ensures final(env).mon@ == (Mon { unannounced_command: old(env).mon@.unannounced_command || !old(env).mon@.round_done, round_done: false, commands: old(env).mon@.commands + 1, ..old(env).mon@ })
+    { unimplemented!() }
+}
+impl<S> Env<S> {
+    /// Env::update_all_subshell_statuses (unit waitsub): no effect on the traps
+    #[verifier::external_body]
+    pub fn update_all_subshell_statuses(&mut self) ensures final(self).mon@ == old(self).mon@ { unimplemented!() }
+}
